@@ -336,11 +336,26 @@ def _ws_variant_discs(ver, toks, exp, gap_list, label):
         texts = [(' ' if 0 < i < n else '') if g is None else g[0] for i, g in enumerate(gl)]
         return X.join_ws(toks, texts)
     s = build(gap_list)
-    o = parse_outcome(ver, s, exp)
-    if o.kind == 'ok':
-        return [], s
+    discs = []
+    work = list(gap_list)
+    for _round in range(4):
+        o = parse_outcome(ver, build(work), exp)
+        if o.kind == 'ok':
+            break
+        d, rest = _ws_localise(ver, toks, exp, work, build, o, label)
+        discs.append(d)
+        if not rest:
+            break
+        # neutralise the responsible gaps and judge the remaining ones too (a known cause must not mask the others)
+        for i in rest:
+            work[i] = None
+    return discs, s
+
+
+def _ws_localise(ver, toks, exp, gap_list, build, o, label):
+    n = len(toks)
     fk = o.fail_key()
-    # localise: drop gaps one at a time while the same failure persists (one pass of delta debugging)
+    # drop gaps one at a time while the same failure persists (one pass of delta debugging)
     cur = list(gap_list)
     for i, g in enumerate(cur):
         if g is None:
@@ -369,8 +384,8 @@ def _ws_variant_discs(ver, toks, exp, gap_list, label):
     left = tokclass(toks[i - 1]) if i > 0 else 'START'
     right = tokclass(toks[i]) if i < n else 'END'
     where = f'{left}|{right}' if len(rest) == 1 else f'{len(rest)}-gaps'
-    return [Disc(_b('C04/ws', classes, where, fk, ver), 'same tree as with single spaces', _fail_text(o1),
-                 f'{label} string={o1.string!r}')], s
+    return Disc(_b('C04/ws', classes, where, fk, ver), 'same tree as with single spaces', _fail_text(o1),
+                f'{label} string={o1.string!r}'), rest
 
 
 def _fail_text(o):
